@@ -24,7 +24,7 @@ SIG = {
               'facts': ['ite(result, 0 <= spec.ecgroup.px(P), True)', 'ite(result, spec.ecgroup.px(P) < spec.keys.curve_p(cid), True)',
                         'ite(result, 0 <= spec.ecgroup.py(P), True)', 'ite(result, spec.ecgroup.py(P) < spec.keys.curve_p(cid), True)',
                         'ite(result, spec.ecgroup.pt(spec.ecgroup.px(P), spec.ecgroup.py(P)) == P, True)',
-                        'ite(P == spec.ecgroup.neutral(cid), result, True)']},
+                        'ite(P == spec.ecgroup.neutral(cid), result, True)', 'ite(P == spec.ecgroup.base(cid), result, True)']},
     'add': {'sort': 'int', 'uf': True,
             'facts': ['ite(spec.ecgroup.valid(cid, P), ite(spec.ecgroup.valid(cid, Q), spec.ecgroup.valid(cid, result), True), True)',
                       'ite(Q == spec.ecgroup.neutral(cid), result == P, True)', 'ite(P == spec.ecgroup.neutral(cid), result == Q, True)']},
@@ -60,6 +60,11 @@ def neutral(cid):
     if cid == 6 or cid == 7:
         return pt(0, 1)
     return pt(0, 0)
+
+
+def base(cid):
+    """the base point G of a two-coordinate curve (on the curve: FIPS 186-4 D.1.2, RFC 8032 5.1 / 5.2; checked by spec/curves.selfcheck)"""
+    return pt(keys.CURVE_GX[cid], keys.CURVE_GY[cid])
 
 
 def neg(cid, P):
